@@ -22,6 +22,8 @@ package selector
 //@   loop 0 invariant [C13] forall j {endpoints[j].Weight} :: (0 <= j && j <= rangeindex) ==> (minWeight <= endpoints[j].Weight && endpoints[j].Weight <= maxWeight)
 //@   site if#7 assert [C13] (minWeight > 0 ==> maxRange == min(100, max(10, maxWeight / minWeight))) && (minWeight <= 0 ==> (maxRange == 1 && totalWeight == 1))
 //@   site if#10 assert [C13] (maxWeight > 0 && endpoints[idx].Weight >= 0) ==> weight == endpoints[idx].Weight * maxRange / maxWeight
+//@   site builtin:append#0 assert [C13] weight > 0
+//@   site builtin:append#1 assert [C13] weight <= 0
 //@   loop 1 invariant idToWeight != nil && objof(weightToId) != objof(staticWeightRouterCache)
 //@   loop 1 invariant (objof(staticWeightRouterCache) == objof(atentry(1, staticWeightRouterCache)) || loopfresh(1, staticWeightRouterCache)) && (objof(weightToId) == 0 || loopfresh(1, weightToId))
 //@   loop 2 invariant idToWeight != nil && objof(weightToId) != objof(staticWeightRouterCache)
